@@ -141,6 +141,14 @@ pub fn graphql_attr(case: &E1Case, schema_rel: &str, query_rel: &str) -> String 
     if o.skip_none {
         parts.push("skip_serializing_none".into());
     }
+    // the order of options in the attribute is the user's choice: a deterministic shuffle per case
+    // (bare flags and lists before `key = "value"` pairs, paths last, ...)
+    let mut x = crate::tape::fnv(case.document.as_bytes()) ^ crate::tape::fnv(case.schema_text.as_bytes()).rotate_left(21);
+    for i in (1..parts.len()).rev() {
+        x = x.wrapping_mul(6364136223846793005).wrapping_add(1442695040888963407);
+        let j = ((x >> 33) as usize) % (i + 1);
+        parts.swap(i, j);
+    }
     format!("#[graphql({})]", parts.join(", "))
 }
 
